@@ -216,8 +216,8 @@ def rule_b(ctx, words, s, r):
                 ctx.check(at_least(s1.orders[0], "Acquire", "load"), rid, key, "channel pointer load %s >= Acquire" % s1.orders[0], s1.sp, s1.orders)
             elif s1.op in ("compare_exchange", "compare_exchange_weak", "swap", "store"):
                 ctx.check(at_least(s1.orders[0], "Release", "rmw"), rid, key, "channel pointer publish %s >= Release" % s1.orders[0], s1.sp, s1.orders)
-    if m < 3:
-        raise AnchorLost("exfiltrator channel-pointer accesses")
+    if m < 2:
+        raise AnchorLost("exfiltrator channel-pointer accesses (a load and a publish expected)")
 
 
 def rule_c(ctx):
